@@ -14,7 +14,7 @@ use crate::validators::*;
 use crate::oracle::*;
 use crate::mint_admission::{Mint, UncheckedAccount, BadgeAccount, verify_supported_token_mint, is_non_transferable_position_required, mint_supported, badge_ok};
 use crate::tick_math::tick_of;
-use crate::pool_init_handlers::{Context, Program, Interface, Sysvar, TokenInterface, System, Rent, initialize_vault_token_account, PoolInitialized, emit_pool_initialized, flag_empty, flag_union, FLAG_NTP, MAX_TRADE_ENABLE_TIMESTAMP_DELTA};
+use crate::pool_init_handlers::{Context, Program, Interface, Sysvar, TokenInterface, System, Rent, initialize_vault_token_account, vault_initialized, PoolInitialized, emit_pool_initialized, flag_empty, flag_union, FLAG_NTP, MAX_TRADE_ENABLE_TIMESTAMP_DELTA};
 broadcast use crate::anchor_shim::ax_qmark_anchor;
 //@ tags C19 C14 C04
 //@ assume adaptive-pool-init shims: as in fragment pool_init_handlers; AccountLoader<Oracle>::load_init hands out the (zeroed) oracle account mutably; Clock::get yields now_unix(); to_timestamp_u64 rejects negative timestamps
@@ -57,6 +57,7 @@ impl AdaptiveFeeTier {
     requires constraints_InitializePoolWithAdaptiveFee(old(ctx.accounts)), old(ctx.accounts).adaptive_fee_tier.data.tick_spacing > 0, // adaptive fee tiers have a non-zero spacing (AdaptiveFeeTier::initialize)
         old(ctx.accounts).adaptive_fee_tier.data.is_valid_initialize_pool_authority_spec(old(ctx.accounts).initialize_pool_authority.skey()), // the one clause outside the K-rules' expression subset (a call with a `.key()` argument), restated by hand
     ensures
+        r is Ok ==> vault_initialized(*old(ctx.accounts).token_vault_a.info.key, old(ctx.accounts).token_mint_a.data.k, old(ctx.accounts).token_program_a.k, old(ctx.accounts).whirlpool.k) && vault_initialized(*old(ctx.accounts).token_vault_b.info.key, old(ctx.accounts).token_mint_b.data.k, old(ctx.accounts).token_program_b.k, old(ctx.accounts).whirlpool.k), // each vault is a token account of ITS mint under that mint's token program, owned by the pool
         r is Ok ==> old(ctx.accounts).token_badge_a.skey() == crate::anchor_shim::pda_of(seq![crate::anchor_shim::Seed::Lit(0x746f6b656e5f6261646765int), crate::anchor_shim::Seed::Key(old(ctx.accounts).whirlpools_config.skey()), crate::anchor_shim::Seed::Key(old(ctx.accounts).token_mint_a.skey())]) && old(ctx.accounts).token_badge_b.skey() == crate::anchor_shim::pda_of(seq![crate::anchor_shim::Seed::Lit(0x746f6b656e5f6261646765int), crate::anchor_shim::Seed::Key(old(ctx.accounts).whirlpools_config.skey()), crate::anchor_shim::Seed::Key(old(ctx.accounts).token_mint_b.skey())]), // the badge accounts examined are the ones derived from ("token_badge", this config, that mint)
         r is Ok ==> old(ctx.accounts).initialize_pool_authority.info.is_signer
             && old(ctx.accounts).adaptive_fee_tier.data.is_valid_initialize_pool_authority_spec(old(ctx.accounts).initialize_pool_authority.skey()), //# C04
